@@ -639,6 +639,7 @@ pub fn layout_replay(args: &[String]) {
     let recs = read_ndjson(&args[0]);
     let mut out = Out::new(None);
     let mut trace = Out::new(arg_value(args, "--trace-out").as_deref());
+    let mut tight_out = Out::new(Some(&arg_value(args, "--tight-out").unwrap_or("/dev/null".to_string())));
     let (mut n, mut bad, mut skipped, mut variants) = (0u64, 0u64, 0u64, 0u64);
     for (idx, r) in recs.iter().enumerate() {
         let toks = r["toks"].as_array().unwrap();
@@ -677,6 +678,26 @@ pub fn layout_replay(args: &[String]) {
                 trace.line(&json!({"text": esc(&text), "lex_ok": tk.is_some(), "toks": tk.unwrap_or_default(), "ok": ok, "panic": pn, "ast": if ok { ast } else { json!([]) }}));
             }
         }
+        // the bare program and its fully parenthesised twin are the same tree (C11): where the record carries the specified tree of a
+        // sentence the grammar pins down, the single-space layout must already give it
+        if r["v"] == "MustAccept" && r.get("src").is_some() {
+            let abs0 = map_leaves(&ast0, &|k, t| base.back.get(&(k.to_string(), t.to_string())).cloned().unwrap_or_else(|| format!("?{}", t)));
+            if abs0 != r["ast"] {
+                bad += 1;
+                out.line(&json!({"mismatch": idx, "layout": "base", "text": base.text, "base": base.text, "why": "the bare form and the fully parenthesised form of one tree parse differently"}));
+            }
+        }
+        // white space dropped without asking the real tokenizer: the check decides with the Lexer specification which of these
+        // variants still are the same token sequence, and those must parse exactly like the base
+        for tight in 0..2 {
+            let gaps: Vec<String> = (0..toks.len() + 1).map(|i| if i == 0 || i == toks.len() || tight == 0 || lrng.gen_bool(0.5) { String::new() } else { " ".to_string() }).collect();
+            let v = concretize(toks, seed, idx as u64, &|j| gaps[j].clone());
+            if v.text == base.text {
+                continue;
+            }
+            let (ok, pn, ast) = parse_observe(&v.text);
+            tight_out.line(&json!({"idx": idx, "base": esc(&base.text), "tight": esc(&v.text), "same_parse": !pn && ok && ast == ast0, "tight_ok": ok, "tight_panic": pn}));
+        }
         // tight layouts: white space is dropped wherever the tokenizer (hook H1; judged on its own by C10) still reports the same
         // tokens, first greedily at every boundary and then at a random half of the boundaries
         for tight in 0..2 {
@@ -705,6 +726,7 @@ pub fn layout_replay(args: &[String]) {
         }
     }
     trace.flush();
+    tight_out.flush();
     out.line(&json!({"summary": {"checked": n, "variants": variants, "mismatches": bad, "skipped": skipped}}));
     out.flush();
 }
